@@ -2,7 +2,7 @@
    update-ref operation to an abstract machine (current branch, name -> commit). *)
 From Coq Require Import Strings.String Strings.Byte.
 From Coq Require Import List NArith.
-From Goit Require Import Bytes Obj Regex GoRegex Refs World Repo ObjFacts RegexFacts BranchFacts.
+From Goit Require Import Bytes Obj Regex GoRegex Refs Ignore World Repo ObjFacts RegexFacts BranchFacts.
 From Goit Require Import Bridge.
 From Goit Require Import Inv SnapshotFacts.
 From Goit Require BranchReachFacts.
@@ -137,35 +137,40 @@ Print Assumptions C10_source_patterns_are_the_models.
 
 (* on reachable repositories.  The single-step refinements above hold from an arbitrary world under
    hypotheses (`refs_commits_ok`, `blogs_cover_refs`, `ctx_of w = Some x`); on a reachable world the
-   first two are invariants and the third is "the two config files and .goitignore load"
-   (BranchReachFacts.files_load, shown necessary by a witness there).  One abstract machine a_cmd for
-   every parameter shape of branch / switch / update-ref: *)
+   first two are invariants, and so is "the two config files load" (`config` refuses an empty section
+   name and line feeds: C20_config_files_always_load).  What is left of the third is ONE condition:
+   the user's own .goitignore reads (its lines are in the model's alphabet) — shown necessary by a
+   witness in BranchReachFacts (cx_files_do_not_load, cx_switch_defined_but_refused).  One abstract
+   machine a_cmd for every parameter shape of branch / switch / update-ref: *)
 Theorem C10_step_refines_on_every_reachable_repository : forall e c w w' o tr,
   Reachable w -> w_coll w = false -> SmallStore (w_objs w) ->
-  branch_family c -> w_inited w = true -> BranchReachFacts.files_load w ->
+  branch_family c -> w_inited w = true ->
+  ign_load (am_get (w_files w) (str ".goitignore"%string)) <> None ->
   step (ACmd e c) w = (w', o, tr) ->
   match BranchReachFacts.a_cmd (commit_loads w) c (abs w) with
   | Some s' => o = OOk (BranchReachFacts.a_print c (abs w)) /\ abs w' = s' /\ frame w w'
   | None => o = OErr /\ tr = [] /\ w' = w
   end.
-Proof. exact BranchReachFacts.family_step_refines'. Qed.
+Proof. exact BranchReachFacts.family_step_refines''. Qed.
 
 (* and over histories: after ANY sequence of branch / switch / update-ref commands (accepted or
    refused, hostile arguments included) from a reachable repository, HEAD and the branch map are the
    fold of the abstract operations, refused ones being the identity, and nothing else changed but
    the journals; every answer (the lines of `branch --list` included) is the abstract machine's *)
 Theorem C10_history_refines : forall h w,
-  Reachable w -> w_coll w = false -> SmallStore (w_objs w) -> BranchReachFacts.files_load w ->
+  Reachable w -> w_coll w = false -> SmallStore (w_objs w) ->
+  ign_load (am_get (w_files w) (str ".goitignore"%string)) <> None ->
   Forall BranchReachFacts.family_action h ->
   abs (run h w) = BranchReachFacts.a_run (commit_loads w) h (abs w) /\ frame w (run h w).
-Proof. exact BranchReachFacts.branch_history_refines. Qed.
+Proof. exact BranchReachFacts.branch_history_refines'. Qed.
 
 Theorem C10_history_answers : forall h w,
   Reachable w -> w_coll w = false -> SmallStore (w_objs w) ->
-  w_inited w = true -> BranchReachFacts.files_load w ->
+  w_inited w = true ->
+  ign_load (am_get (w_files w) (str ".goitignore"%string)) <> None ->
   Forall BranchReachFacts.family_action h ->
   BranchReachFacts.outcomes h w = BranchReachFacts.a_outcomes (commit_loads w) h (abs w).
-Proof. exact BranchReachFacts.branch_history_observable. Qed.
+Proof. exact BranchReachFacts.branch_history_observable'. Qed.
 Print Assumptions C10_step_refines_on_every_reachable_repository.
 Print Assumptions C10_history_refines.
 Print Assumptions C10_history_answers.
